@@ -13,10 +13,13 @@ import (
 	"os"
 	"sort"
 	"strconv"
+	"runtime"
 	"strings"
 	"sync"
+	"sync/atomic"
 	"testing"
 	"testing/synctest"
+	"time"
 
 	"github.com/zalf-rpm/Hermes2Go/hermes"
 )
@@ -112,7 +115,7 @@ func (s *Scheduler) Yield(point, logID, detail string) {
 		s.perTask[id]++
 		s.trace = append(s.trace, traceEv{len(s.decisions), id, s.perTask[id], id + " " + point})
 	}
-	if t.window || (s.window && logID == "") {
+	if t.window || (s.window && logID == "") || (s.spec.NoPoolYield && point == "pool.get") {
 		s.mu.Unlock()
 		return
 	}
@@ -221,6 +224,41 @@ func isOverlapDecision(spec *SchedSpec, n int) bool {
 	return false
 }
 
+// schedProgress counts scheduler decisions; the hang watchdog (a goroutine outside the bubble, real clock) reads it.
+var schedProgress atomic.Int64
+var schedActive atomic.Bool
+
+const exitHang = 97
+
+func startHangWatchdog() {
+	limit := time.Duration(envInt("VERIF_HANG_S", 20)) * time.Second
+	go func() {
+		last, since := int64(-1), time.Now()
+		for {
+			time.Sleep(500 * time.Millisecond)
+			if !schedActive.Load() {
+				last, since = -1, time.Now()
+				continue
+			}
+			if p := schedProgress.Load(); p != last {
+				last, since = p, time.Now()
+				continue
+			}
+			if time.Since(since) > limit {
+				// no scheduler decision for a long time: a released run never reached its next hook, or it is blocked
+				// on a lock that a parked run holds (quiescence detection cannot see that)
+				buf := make([]byte, 4<<20)
+				n := runtime.Stack(buf, true)
+				os.Stderr.Write(buf[:n])
+				fmt.Fprintf(os.Stderr, "\nVERIF-HANG: no scheduler progress for %v\n", limit)
+				os.Exit(exitHang)
+			}
+		}
+	}()
+}
+
+var hangWatchdogOnce sync.Once
+
 // BatchOutcome is what a scheduled batch produced.
 type BatchOutcome struct {
 	Stdout      string
@@ -253,6 +291,9 @@ func (e *Env) RunBatch(root string, lines []string, spec *SchedSpec, disk *SimDi
 	concurrentOperations = uint16(spec.Concurrency)
 	defer func() { concurrentOperations = oldConc }()
 	maxDecisions := 200000
+	hangWatchdogOnce.Do(startHangWatchdog)
+	schedActive.Store(true)
+	defer schedActive.Store(false)
 
 	out.Stdout = e.quiet(true, func() {
 		func() {
@@ -324,6 +365,7 @@ func (e *Env) RunBatch(root string, lines []string, spec *SchedSpec, disk *SimDi
 						s.mu.Unlock()
 						continue
 					}
+					schedProgress.Add(1)
 					i := s.choose(parked)
 					s.mu.Lock()
 					s.decisions = append(s.decisions, i)
